@@ -261,7 +261,9 @@ def r1_2(repo: Repo) -> RuleResult:
                                     summ = _one_per_item_summary(repo, f, s.value)
                                     if summ is not None:
                                         pos, hname = summ
-                                        if pos < len(s.value.args) and norm(s.value.args[pos]) == c_name:
+                                        helper = [t for t in repo.resolve_call(f, s.value) if isinstance(t, Func)][0]
+                                        bound_h = repo.bind_args(helper, s.value)
+                                        if norm(bound_h.get(helper.positional_params[pos], ast.Constant(value=None))) == c_name:
                                             verdict = ("ok", "indices.extend(%s) from %s: one index per item of %s" % (a0.id, hname, c_name))
                             if verdict:
                                 break
